@@ -21,7 +21,7 @@ type priced struct {
 	times uint64 // multiplier of the own cost (number of tokens for a multi-transfer); 0 = 1
 }
 
-func base(s world.Schedule, f string) uint64  { return s[vmcommon.BaseOperationCostString][f] }
+func base(s world.Schedule, f string) uint64    { return s[vmcommon.BaseOperationCostString][f] }
 func builtin(s world.Schedule, f string) uint64 { return s[vmcommon.BuiltInCostString][f] }
 
 func sumLen(args [][]byte) uint64 {
